@@ -18,7 +18,7 @@ func Minimize(rc RunConfig, actions []Action, target *Violation, opt Options, bu
 	tests := 0
 	var suffix []Action
 	body := actions
-	if n := len(actions); n > 0 && actions[n-1].K == AHealPhase {
+	if n := len(actions); n > 0 && (actions[n-1].K == AHealPhase || actions[n-1].K == AVClosePhase) {
 		suffix = actions[n-1:]
 		body = actions[:n-1]
 	}
